@@ -25,6 +25,8 @@ def run(ctx):
     runs = [("MCCob_rej_t.cfg", "every change graph on root+3 changes, ts 1..2, all six payload classes; theorems also on every dependency-closed part"),
             ("MCCob_rej_t4.cfg", "root+4 changes, ts 1..2, at most one not plainly valid change; every 16th graph emitted")] if thorough else \
            [("MCCob_rej_q.cfg", "every change graph on root+3 changes, ts 1..2, at most two changes not plainly valid (reply to concurrent comment, forged signature, refused action, later action refused)")]
+    # graphs with detached changes (no dependency, not the root) and changes built on them
+    runs.append(("MCCob_det_q.cfg", "root+3 changes, detached changes allowed, classes ok/badSig/rejectLater: detached changes and their dependents are dropped"))
     cases = []
     for cfg, label in runs:
         res = ctx.tlc("MCCob", cfg, workers=8, timeout=3000 if thorough else 900, coverage=False, heap="6g", label=label)
@@ -50,6 +52,10 @@ def run(ctx):
                   label="sanity: in-place application (Atomic = FALSE) must violate the theorems")
     if dev.violated != "TheoremsHold":
         raise vlib.ToolError("sanity run: the non-atomic model was not rejected by TLC")
+    det = ctx.tlc("MCCob", "MCCob_det_dev.cfg", workers=2, timeout=300, coverage=False, count=False,
+                  label="sanity: leaving detached changes in the graph (DropDetached = FALSE, the code as found) must violate the theorems")
+    if det.violated != "TheoremsHold":
+        raise vlib.ToolError("sanity run: the model that keeps detached changes was not rejected by TLC")
     # ... and so is the Identity::op leniency towards concurrent changes (open finding, see 5.)
     soft = ctx.tlc("MCCob", "MCCob_soft.cfg", workers=2, timeout=300, coverage=False, count=False,
                    label="identity objects: UnexpectedState ignored when a concurrent change exists -- TLC finds the C06 counterexample")
@@ -58,10 +64,14 @@ def run(ctx):
 
     # 3. spec -> implementation.
     inter = lambda cs: [c for c in cs if c["rej"]]
+    detc = [c for c in cases[-1] if any(len(d) == 0 for d in c["deps"])]
+    if not detc:
+        raise vlib.ToolError("no case with a detached change")
     if thorough:
-        todo = [("issue", cases[0] + cases[1]), ("patch", rnd.sample(inter(cases[0]), 6000) + rnd.sample(inter(cases[1]), 3000))]
+        todo = [("issue", cases[0] + cases[1] + detc), ("patch", rnd.sample(inter(cases[0]), 6000) + rnd.sample(inter(cases[1]), 3000) + rnd.sample(detc, 300))]
     else:
-        todo = [("issue", rnd.sample(inter(cases[0]), 1500) + rnd.sample(cases[0], 300)), ("patch", rnd.sample(inter(cases[0]), 400))]
+        todo = [("issue", rnd.sample(inter(cases[0]), 1500) + rnd.sample(cases[0], 300) + rnd.sample(detc, 250)),
+                ("patch", rnd.sample(inter(cases[0]), 400) + rnd.sample(detc, 60))]
     drift = 0
     nontrivial = 0
     for kind, cs in todo:
@@ -142,7 +152,7 @@ def run(ctx):
         "invalid changes are realised as: forged signature; bad title; redaction of / reply to a missing comment; label by a non-delegate; redaction of the root or of a missing revision (patches)",
         "issues and patches; identity objects only through the fixed probe of step 5 (cob/identity.rs is covered by C04)",
         "debug build: multi-action changes touching the thread twice trip debug assertions in thread.rs and are not generated",
-        "change graphs in which every change descends from the root",
+        "detached changes: a change commit without parent changes, and changes built on it, reachable from some reference",
     ]
     return ctx.finish(rule=RULE)
 
